@@ -21,7 +21,7 @@
 (*                   deviations explains it exactly (a named regression: every one of them has     *)
 (*                   been repaired in /repo; accepted only while its finding is listed as known)   *)
 (*   "unexplained"   anything else                                                                 *)
-EXTENDS MpqFormat, Json, IOUtils, TLC, TLCExt
+EXTENDS MpqFormatHB, Json, IOUtils, TLC, TLCExt
 
 Rec == ndJsonDeserialize(IOEnv.TRACE)
 
@@ -44,7 +44,7 @@ Bad(why) == PrintT(<<"BAD", tl, why>>)
 \* ---------------------------------------------------------------------------------------------
 T_Reset ==
   /\ Ev.ev = "Reset" /\ vphase \in {"idle", "closed"}
-  /\ vphase' = "reset" /\ vdir' = Ev.dir /\ vcfg' = [ver |-> Ev.ver, shift |-> Ev.shift]
+  /\ vphase' = "reset" /\ vdir' = Ev.dir /\ vcfg' = [ver |-> Ev.ver, shift |-> Ev.shift, hetbet |-> Ev.hetbet, classic |-> Ev.classic]
   /\ vwant' = [nm \in SeqSet(Ev.names) |-> [len |-> Ev.lens[CHOOSE qi \in 1..Len(Ev.names) : Ev.names[qi] = nm],
                                            tok |-> Ev.toks[CHOOSE qi \in 1..Len(Ev.names) : Ev.names[qi] = nm]]]
   /\ vseen' = {} /\ vtwin' = Ev.twin
@@ -61,11 +61,41 @@ HeaderP(e) ==
   /\ HeaderConforms(e.hsize, e.asize, e.ver, e.shift, e.htpos, e.btpos, e.htcount, e.btcount, e.hibt, e.hthi, e.bthi, e.alen)
   /\ e.ver = vcfg.ver /\ e.shift = vcfg.shift
   /\ e.btcount >= Cardinality(DOMAIN vwant)
+\* V3/V4 (growth round 4): the classic part as before, the rest by HeaderConformsX on the logged integers; every digest of a
+\* V4 header equals the MD5 (computed by hashlib) of the byte range MpqFormatHB!Md5Ranges names for it
+HeaderPX(e, xx) ==
+  /\ e.open = "ok" /\ e.base = 0
+  /\ \A fld \in {"hsize", "htpos", "btpos", "htcount", "btcount", "hibt"} : e[fld] >= 0
+  /\ e.x.asize64 >= 0 /\ e.x.hetpos >= 0 /\ e.x.betpos >= 0
+  /\ HeaderConformsX(e.ver, e.hsize, e.x.asize64, e.alen, e.shift, e.htpos, e.btpos, e.htcount, e.btcount, e.hibt, e.hthi, e.bthi,
+                     e.x.hetpos, e.x.betpos, e.x.hetsz, e.x.betsz, e.x.htsz, e.x.btsz, e.x.hibtsz, e.x.rawchunk, xx)
+  /\ \A gi \in 1..Len(e.x.md5) : e.x.md5[gi].got = e.x.md5[gi].want
+  /\ (e.ver = 3 => Len(e.x.md5) >= 3 /\ \E gi \in 1..Len(e.x.md5) : e.x.md5[gi].what = "header")
+  /\ e.ver = vcfg.ver /\ e.shift = vcfg.shift
+  /\ e.btcount >= Cardinality(DOMAIN vwant)
 T_RefOpen ==
   /\ Ev.ev = "RefOpen" /\ vphase = "built"
-  /\ IF HeaderP(Ev) THEN vphase' = "open"
-     ELSE Bad("unexplained") /\ vphase' = "closed"
+  /\ IF Ev.ver >= 2
+     THEN IF HeaderPX(Ev, XStd) THEN vphase' = "open"
+          ELSE IF HeaderPX(Ev, XLib) THEN Bad("dev:libhetbet") /\ vphase' = "open"      \* named deviation; the files are still compared
+          ELSE Bad("unexplained") /\ vphase' = "closed"
+     ELSE IF HeaderP(Ev) THEN vphase' = "open"
+          ELSE Bad("unexplained") /\ vphase' = "closed"
   /\ UNCHANGED <<vdir, vcfg, vwant, vtwin, vseen>>
+
+\* the HET and BET tables of a library-written V3/V4 archive conform (header arithmetic re-evaluated here on the logged
+\* fields; slot-level facts as the reference reader found them under each x-dialect)
+TablesP(e, xx, slotsok) ==
+  /\ e.hetext.res = "ok" /\ e.betext.res = "ok"
+  /\ HetConforms(e.het, e.hetext.dsize, xx) /\ BetConforms(e.bet, e.betext.dsize, xx) /\ HetBetAgree(e.het, e.bet, xx)
+  /\ slotsok
+  /\ e.bet.nfiles >= Cardinality(DOMAIN vwant)
+T_RefTables ==
+  /\ Ev.ev = "RefTables" /\ vphase = "open" /\ vdir = 1
+  /\ IF TablesP(Ev, XStd, Ev.slots.std) THEN TRUE
+     ELSE IF TablesP(Ev, XLib, Ev.slots.lib) THEN Bad("dev:libhetbet") ELSE Bad("unexplained")
+  /\ (IF Ev.het.res = "ok" /\ Ev.het.tsize \notin {Ev.hetext.dsize} THEN PrintT(<<"DRIFT", tl, "HET table_size counts the extended header">>) ELSE TRUE)
+  /\ UNCHANGED <<vphase, vdir, vcfg, vwant, vtwin, vseen>>
 
 \* one decoded variant gives the file back: every sector has its expected plain length, the
 \* concatenation has the token and length of what was added
@@ -100,6 +130,22 @@ T_RefLocFile ==
      THEN TRUE ELSE Bad("unexplained")
   /\ UNCHANGED <<vphase, vdir, vcfg, vwant, vtwin, vseen>>
 
+\* the same file looked up through the HET/BET tables (HET probe, BET hash verification, BET entry): must give the same content
+XKey(nm) == "X:" \o nm
+T_RefFileX ==
+  /\ Ev.ev = "RefFileX" /\ vphase = "open" /\ vdir = 1
+  /\ IF Ev.name \in DOMAIN vwant /\ Gives(Ev.std, vwant[Ev.name]) /\ Ev.stdraw \in {"n/a", "same"} THEN TRUE
+     ELSE IF Ev.name \in DOMAIN vwant /\ Gives(Ev.lib, vwant[Ev.name]) /\ Ev.libraw \in {"n/a", "same"} THEN Bad("dev:libhetbet")
+     ELSE Bad("unexplained")
+  /\ vseen' = vseen \cup {XKey(Ev.name)}
+  /\ UNCHANGED <<vphase, vdir, vcfg, vwant, vtwin>>
+T_RefAbsentX ==
+  /\ Ev.ev = "RefAbsentX" /\ vphase = "open" /\ vdir = 1
+  /\ IF Ev.name \notin DOMAIN vwant /\ Ev.std = "notfound" THEN TRUE
+     ELSE IF Ev.name \notin DOMAIN vwant /\ Ev.lib = "notfound" THEN Bad("dev:libhetbet")
+     ELSE Bad("unexplained")
+  /\ UNCHANGED <<vphase, vdir, vcfg, vwant, vtwin, vseen>>
+
 T_RefAbsent ==
   /\ Ev.ev = "RefAbsent" /\ vphase = "open" /\ vdir = 1
   /\ IF Ev.name \notin DOMAIN vwant /\ Ev.res = "notfound" THEN TRUE ELSE Bad("unexplained")
@@ -114,10 +160,17 @@ T_RefList ==
 \* ---------------------------------------------------------------------------------------------
 \* direction 2
 \* ---------------------------------------------------------------------------------------------
+\* a V4 archive: the library's own digest check (get_info().md5_status) accepts every digest the reference put in
+Md5P(m) == m.res = "ok" /\ m.header /\ (vcfg.hetbet => m.het /\ m.bet) /\ (vcfg.classic => m.hash /\ m.block /\ m.hiblock)
 T_Open ==
   /\ Ev.ev = "Open" /\ vphase = "reset" /\ vdir = 2
-  /\ IF Ev.std = "ok" THEN vphase' = "open"
+  /\ IF Ev.std = "ok" /\ (vcfg.ver = 3 => Md5P(Ev.md5)) THEN vphase' = "open"
+     ELSE IF Ev.std = "ok" THEN Bad("md5") /\ vphase' = "open"
+     ELSE IF vcfg.hetbet /\ Len(Ev.vars) >= 1 /\ Ev.vars[1] = "ok" THEN Bad("dev:libhetbet") /\ vphase' = "closed"
+     \* named deviation `needsclassic`: an archive whose HET/BET tables replace the classic hash table (hash_table_count = 0) is refused
+     ELSE IF vcfg.hetbet /\ ~vcfg.classic /\ Ev.std = "err:InvalidFormat" THEN Bad("dev:needsclassic") /\ vphase' = "closed"
      ELSE Bad("unexplained") /\ vphase' = "closed"
+  /\ (IF vcfg.hetbet /\ Ev.std = "ok" /\ ~(Ev.tables.het /\ Ev.tables.bet) THEN PrintT(<<"DRIFT", tl, "HET/BET not loaded">>) ELSE TRUE)
   /\ UNCHANGED <<vdir, vcfg, vwant, vtwin, vseen>>
 
 AllSpellings(v, want) ==
@@ -152,7 +205,9 @@ ListPT(v) ==        \* ... with the size of the localized twin reported for its 
 T_List ==
   /\ Ev.ev = "List" /\ vphase = "open" /\ vdir = 2
   /\ IF ListP(Ev.std) THEN TRUE
-     ELSE IF vtwin.name # "" /\ ListPT(Ev.std) THEN Bad("dev:localefirst") ELSE Bad("unexplained")
+     ELSE IF vtwin.name # "" /\ ListPT(Ev.std) THEN Bad("dev:localefirst")
+     ELSE IF vcfg.hetbet /\ Len(Ev.vars) >= 1 /\ ListP(Ev.vars[1]) THEN Bad("dev:libhetbet")
+     ELSE Bad("unexplained")
   /\ vphase' = "listed"
   /\ UNCHANGED <<vdir, vcfg, vwant, vtwin, vseen>>
 
@@ -160,7 +215,7 @@ T_List ==
 \* every file of the archive was compared (no silent skipping); in a closed behaviour nothing is due
 T_Done ==
   /\ Ev.ev = "Done" /\ vphase \in {"open", "listed", "closed"}
-  /\ IF vphase = "closed" \/ vseen = DOMAIN vwant THEN TRUE
+  /\ IF vphase = "closed" \/ vseen = DOMAIN vwant \cup (IF vdir = 1 /\ vcfg.hetbet THEN {XKey(nm) : nm \in DOMAIN vwant} ELSE {}) THEN TRUE
      ELSE Bad("unexplained")
   /\ vphase' = "idle"
   /\ UNCHANGED <<vdir, vcfg, vwant, vtwin, vseen>>
@@ -170,11 +225,11 @@ T_Skip ==
   /\ vphase = "closed" /\ Ev.ev \notin {"Reset", "Done"}
   /\ UNCHANGED <<vphase, vdir, vcfg, vwant, vtwin, vseen>>
 
-Init == tl = 1 /\ vphase = "idle" /\ vdir = 0 /\ vcfg = [ver |-> -1, shift |-> -1] /\ vwant = <<>> /\ vseen = {}
+Init == tl = 1 /\ vphase = "idle" /\ vdir = 0 /\ vcfg = [ver |-> -1, shift |-> -1, hetbet |-> FALSE, classic |-> TRUE] /\ vwant = <<>> /\ vseen = {}
         /\ vtwin = [name |-> "", len |-> -1, tok |-> ""]
 Next == /\ tl <= Len(Rec)
         /\ tl' = tl + 1
-        /\ \/ T_Reset \/ T_Build \/ T_RefOpen \/ T_RefFile \/ T_RefLocFile \/ T_RefAbsent \/ T_RefList
+        /\ \/ T_Reset \/ T_Build \/ T_RefOpen \/ T_RefTables \/ T_RefFile \/ T_RefFileX \/ T_RefAbsentX \/ T_RefLocFile \/ T_RefAbsent \/ T_RefList
            \/ T_Open \/ T_Read \/ T_Absent \/ T_List \/ T_Done \/ T_Skip
 
 Accepted == LET d == TLCGet("stats").diameter IN
